@@ -19,7 +19,7 @@ import (
 func init() {
 	mon.Register(&mon.Prop{
 		ID: "C14", Level: "exploration",
-		Rule:        "annotated sequences with every length 1..300 (each residue class modulo the 70-column FASTA width several times) and random lengths to 5000, 0..30 features with 1..6 attributes, features at the extreme coordinates 1 and L, field text free of tab, newline, ';', '=' and seqids free of white space; write direction: gff.Build -> gff.Parse, gff.Build -> the harness's own GFF3 reader, Write/Read through a temp file; parse direction: GFF3 laid out by the harness's own writer (attribute order shuffled, FASTA wrap width 1..200, with/without ###, with/without final newline) -> gff.Parse; non-trivial = at least one feature; distinct by hash of the GFF text",
+		Rule:        "annotated sequences with every length 1..300 (each residue class modulo the 70-column FASTA width several times) and random lengths to 5000, 0..30 features with 1..6 attributes (one feature in 40 with a value of 3,000..140,000 letters, around 4096, 8192 and 65536 bytes per row), features at the extreme coordinates 1 and L, field text free of tab, newline, ';', '=' and seqids free of white space; write direction: gff.Build -> gff.Parse, gff.Build -> the harness's own GFF3 reader, Write/Read through a temp file; parse direction: GFF3 laid out by the harness's own writer (attribute order shuffled, FASTA wrap width 1..200, with/without ###, with/without final newline) -> gff.Parse; non-trivial = at least one feature; distinct by hash of the GFF text",
 		Assumptions: []string{"oracle: the input record; coordinates checked against the harness's own slicing of the sequence (file start..end, 1-based inclusive)"},
 		Shards:      tierShards(8, 16), WatchdogSec: tierSecs(600, 3600),
 		MinStats: func(string) map[string]int64 {
@@ -49,6 +49,7 @@ type gffRecord struct {
 	RegStart, RegEnd int
 	Seq              string
 	Feats            []gffFeature
+	LongRows         int
 }
 
 func gffWord(r *rand.Rand) string {
@@ -116,6 +117,12 @@ func randGFF(r *rand.Rand, L int) *gffRecord {
 				v = " " + v
 			}
 			f.Attrs[keys[k]] = v
+		}
+		if r.Intn(40) == 0 {
+			// a row longer than the usual line buffers: a conceptual translation or a long note
+			n := []int{3000 + r.Intn(6000), 4000 + r.Intn(200), 8100 + r.Intn(200), 65400 + r.Intn(300), 70000 + r.Intn(70000)}[r.Intn(5)]
+			f.Attrs[[]string{"translation", "Note"}[r.Intn(2)]] = randString(r, "ACDEFGHIKLMNPQRSTVWY ", n-1) + "K"
+			rec.LongRows++
 		}
 		rec.Feats = append(rec.Feats, f)
 	}
@@ -332,6 +339,7 @@ func runC14(w *mon.W) {
 			L = 1 + r.Intn(5000)
 		}
 		rec := randGFF(r, L)
+		w.Add("feature_rows_longer_than_3000_bytes", int64(rec.LongRows))
 		if L%70 == 1 {
 			w.Add("lengths_1_mod_70", 1)
 		}
